@@ -964,6 +964,43 @@ def alias_and_purity_fixed(args) -> List[Tuple[str, Dict[str, Any], str, Any]]:
     except Exception as e:      # noqa: BLE001
         fails.append(("EngineRunsUnderAccepted", {"cause": "stage-cache-probe-raised"}, f"stage cache probe raised {type(e).__name__}: {e}", {"v": {}, "doc": {}}))
 
+    # (c) history independence: what the validator says about a document is a function of the document, not of what the
+    # process validated before.  Keys that are equal as Python objects but spelled differently (1 / True / 1.0, 0 / False /
+    # 0.0 - YAML produces all of them) are the sharpest probe of a process-global memo; each list is validated in both
+    # orders in two fresh processes and the per-document outcomes are compared.
+    probe = ("import sys, json\n"
+             "from configs.validate import validate_config, validate_config_verbose\n"
+             "docs = [{1: {}}, {True: {}}, {1.0: {}}, {0: {}}, {False: {}}, {0.0: {}}, {'t1': {1: 2}}, {'t1': {True: 2}}, {'t2': {0: 2}}, {'t2': {False: 2}},\n"
+             "        {'t1x': {}}, {'t1': {'radius_cup': 3}}]\n"
+             "order = list(range(len(docs)))\n"
+             "if sys.argv[1] == 'rev': order.reverse()\n"
+             "out = {}\n"
+             "for i in order:\n"
+             "    r = []\n"
+             "    for f in (validate_config, validate_config_verbose):\n"
+             "        try:\n"
+             "            x = f(dict(docs[i]))\n"
+             "            r.append(['accept', [str(w) for w in x[1]] if isinstance(x, tuple) else []])\n"
+             "        except Exception as e:\n"
+             "            r.append([type(e).__name__, str(e)])\n"
+             "    out[str(i) + ' ' + repr(docs[i])] = r\n"
+             "print(json.dumps(out, sort_keys=True))\n")
+    env = dict(os.environ)
+    env["PYTHONPATH"] = f"{VERIF_REPO}:/verif"
+    outs_ = {}
+    for order in ("fwd", "rev"):
+        try:
+            p_ = subprocess.run([sys.executable, "-c", probe, order], cwd=args[0], env=env, stdout=subprocess.PIPE, stderr=subprocess.PIPE, text=True, timeout=300)
+            outs_[order] = json.loads(p_.stdout.strip().splitlines()[-1])
+        except Exception as e:      # noqa: BLE001
+            fails.append(("Deterministic", {"cause": "history-probe-failed"}, f"history probe ({order}) did not complete: {type(e).__name__}: {str(e)[:120]}", {"v": {}, "doc": {}}))
+    if len(outs_) == 2:
+        for k_ in sorted(outs_["fwd"]):
+            if outs_["fwd"][k_] != outs_["rev"].get(k_):
+                fails.append(("Deterministic", {"cause": "outcome-depends-on-process-history"},
+                              f"document {k_.split(' ', 1)[1]}: validated after other documents in one order the process reports {outs_['fwd'][k_]!r}, in the "
+                              f"reverse order {outs_['rev'].get(k_)!r}", {"v": {}, "doc": {}}))
+
     def scribble(x):
         if isinstance(x, dict):
             for v_ in list(x.values()):
